@@ -71,40 +71,29 @@ const exhaustiveOps = 13 // 12 puts + rotate
 func exhaustiveSeed(seed uint64, blk int) uint64 { return splitmix64(seed ^ uint64(blk)*0x51ed270b) }
 
 type exhaustive struct {
-	h *harness
-	// replay is a second map with the same parameters over the same
-	// record array but another storage_type label, used to re-execute
-	// prefixes without moving the metrics that the oracle reads.
-	replay   local.KeyLocationMap
-	seed     uint64
-	n        int
-	path     []int
-	cfgIndex int
-	rec      *vstats.Recorder
+	h           *harness
+	storageType string
+	seed        uint64
+	n           int
+	path        []int
+	cfgIndex    int
+	rec         *vstats.Recorder
 
 	nodes, nontrivial, exactRuns                                  int64
 	displacing, discards, earlyStops, fallbackOlder, fallbackNone int64
-	ownLost, removing                                             int64
+	ownLost, removing, mech                                       int64
 }
 
 type snapshot struct {
-	dev      []byte
-	released int
-	seeds    [2]uint64
-	lens     [3]int
-	best     [3]res
-	cur      [3]res
-	hist     int
+	lens [3]int
+	best [3]res
+	cur  [3]res
+	hist int
 }
 
 func (e *exhaustive) snap() snapshot {
 	h := e.h
 	var s snapshot
-	if h.dev != nil {
-		s.dev = append([]byte(nil), h.dev.data...)
-	}
-	s.released = h.blocks.released
-	copy(s.seeds[:], h.blocks.seeds)
 	for i := range h.stored {
 		s.lens[i] = len(h.stored[i])
 	}
@@ -114,30 +103,31 @@ func (e *exhaustive) snap() snapshot {
 	return s
 }
 
-// restore brings the harness back to the state after path[:depth]. The
-// block device image is copied back; the in-memory record array cannot be
-// copied through its interface, so it is rebuilt by silently re-executing
-// the prefix on a fresh array.
+// restore brings the harness back to the state after path[:depth]. Nothing
+// is assumed about where the index keeps its state (record array object,
+// device image, the map object itself): a fresh device image, record array
+// and map are built and the prefix is silently re-executed on them. The
+// metrics this moves do not matter: in this unit they are read immediately
+// before and after the one Put whose discards are judged (lazyMetrics).
 func (e *exhaustive) restore(s *snapshot, depth int) {
 	h := e.h
+	h.blocks.released = 0
+	h.blocks.seeds = append(h.blocks.seeds[:0], exhaustiveSeed(e.seed, 0), exhaustiveSeed(e.seed, 1))
 	if h.dev != nil {
-		copy(h.dev.data, s.dev)
-		h.blocks.released = s.released
-		h.blocks.seeds = append(h.blocks.seeds[:0], s.seeds[:]...)
-	} else {
-		h.blocks.released = 0
-		h.blocks.seeds = append(h.blocks.seeds[:0], exhaustiveSeed(e.seed, 0), exhaustiveSeed(e.seed, 1))
-		h.probe.inner = newArray(h.cfg, h.blocks, nil)
-		h.probe.begin(1 << 30)
-		for _, op := range e.path[:depth] {
-			if op == exhaustiveOps-1 {
-				h.blocks.release()
-				h.blocks.alloc(exhaustiveSeed(e.seed, h.blocks.released+1))
-			} else {
-				ki, rel := e.decode(op)
-				if err := e.replay.Put(h.keys[ki], rel); err != nil {
-					h.fail("Put failed during re-execution: %v", err)
-				}
+		clear(h.dev.data)
+	}
+	h.probe.inner = newArray(h.cfg, h.blocks, h.dev)
+	clear(h.probe.written)
+	h.probe.begin(1 << 30)
+	h.klm = local.NewHashingKeyLocationMap(h.probe, h.cfg.size, h.cfg.hashInit, h.cfg.getAttempts, h.cfg.putAttempts, e.storageType)
+	for _, op := range e.path[:depth] {
+		if op == exhaustiveOps-1 {
+			h.blocks.release()
+			h.blocks.alloc(exhaustiveSeed(e.seed, h.blocks.released+1))
+		} else {
+			ki, rel := e.decode(op)
+			if err := h.klm.Put(h.keys[ki], rel); err != nil {
+				h.fail("Put failed during re-execution: %v", err)
 			}
 		}
 	}
@@ -202,6 +192,7 @@ func (e *exhaustive) visit(depth int, nt bool) {
 		e.fallbackNone += int64(st.fallbackNothing)
 		e.ownLost += int64(st.ownPutLost)
 		e.removing += int64(st.releasesRemoving)
+		e.mech += int64(st.mech())
 		c := e.rec.Begin()
 		if childNT {
 			e.nontrivial++
@@ -258,12 +249,12 @@ func TestC06Exhaustive(t *testing.T) {
 					if !mine {
 						continue
 					}
-					h := newHarness(t, cfg, keys, []uint64{exhaustiveSeed(seed, 0), exhaustiveSeed(seed, 1)}, "c06-exhaustive-"+backend)
+					storageType := "c06-exhaustive-" + backend
+					h := newHarness(t, cfg, keys, []uint64{exhaustiveSeed(seed, 0), exhaustiveSeed(seed, 1)}, storageType)
 					h.auditEvery = true
 					h.mr.light = true
 					h.lazyMetrics = true
-					e := &exhaustive{h: h, seed: seed, n: n, path: []int{first}, cfgIndex: cfgIndex, rec: recExh}
-					e.replay = local.NewHashingKeyLocationMap(h.probe, cfg.size, cfg.hashInit, cfg.getAttempts, cfg.putAttempts, "c06-exhaustive-replay")
+					e := &exhaustive{h: h, storageType: storageType, seed: seed, n: n, path: []int{first}, cfgIndex: cfgIndex, rec: recExh}
 					e.visit(0, false)
 					total.nodes += e.nodes
 					total.nontrivial += e.nontrivial
@@ -275,6 +266,7 @@ func TestC06Exhaustive(t *testing.T) {
 					total.fallbackNone += e.fallbackNone
 					total.ownLost += e.ownLost
 					total.removing += e.removing
+					total.mech += e.mech
 				}
 			}
 		}
@@ -288,6 +280,7 @@ func TestC06Exhaustive(t *testing.T) {
 	recExh.Count("ops_other_key_fell_back_to_nothing", total.fallbackNone)
 	recExh.Count("ops_stored_key_not_max_after_discard", total.ownLost)
 	recExh.Count("ops_release_removed_visible_entries", total.removing)
+	recExh.Count("mech_deviations_from_documented_mechanism", total.mech)
 	recExh.Note(fmt.Sprintf("exhaustive sub-space: all operation sequences of length 1..%d over 13 operations (3 keys x 4 locations puts, rotate) x table size {2,3} x put attempts {2,3} x both record arrays, get attempts 2; non-trivial hashes are recorded for lengths <= 5 only", n))
 	recExh.Exhaustive()
 }
